@@ -33,25 +33,6 @@ Qed.
 (* ------------------------------------------------------------------------ *)
 (* nodes of the auxiliary graph                                              *)
 
-(* NP k p : the k-th copy (0 plain, 1 horizontal pass, 2 vertical pass) of the
-   lattice point p;  NS s : the node of segment s *)
-Inductive node := NP (k : nat) (p : nat * nat) | NS (s : seg).
-
-Definition dirk (s : seg) : nat := match s with Seg true _ _ => 2 | Seg false _ _ => 1 end.
-
-Definition node_in (h w : nat) (a : node) : Prop :=
-  match a with
-  | NP k (y, x) => k < 3 /\ y <= h /\ x <= w
-  | NS s => seg_in h w s = true
-  end.
-
-Definition enc (h w : nat) (a : node) : nat :=
-  match a with
-  | NP k (y, x) => (y * (w + 1) + x) * 3 + k
-  | NS (Seg true y x) => (h + 1) * (w + 1) * 3 + y * (w + 1) + x
-  | NS (Seg false y x) => (h + 1) * (w + 1) * 3 + h * (w + 1) + y * w + x
-  end.
-
 Lemma split_nv h w :
   nv (split_graph (h + 1) (w + 1)) = (h + 1) * (w + 1) * 3 + h * (w + 1) + (h + 1) * w.
 Proof. simpl. rewrite !Nat.add_sub. reflexivity. Qed.
@@ -318,13 +299,7 @@ Section SplitStrand.
   Variable act : seg -> bool.
   Let g := split_graph (h + 1) (w + 1).
 
-  (* which nodes the code activates, in terms of the pattern only *)
-  Definition nact (a : node) : bool :=
-    match a with
-    | NP 0 p => Nat.ltb 0 (deg h w act p) && negb (Nat.eqb (deg h w act p) 4)
-    | NP _ p => Nat.eqb (deg h w act p) 4
-    | NS s => act s
-    end.
+  Notation nact := (nact h w act).
 
   Variable vact : nat -> bool.
   Hypothesis vact_enc : forall a, node_in h w a -> vact (enc h w a) = nact a.
